@@ -43,6 +43,9 @@ Model/Valid.vos Model/Valid.vok Model/Valid.required_vos: Model/Valid.v Model/Co
 Model/Equiv.vo Model/Equiv.glob Model/Equiv.v.beautified Model/Equiv.required_vo: Model/Equiv.v Model/Valid.vo
 Model/Equiv.vio: Model/Equiv.v Model/Valid.vio
 Model/Equiv.vos Model/Equiv.vok Model/Equiv.required_vos: Model/Equiv.v Model/Valid.vos
+Model/Render.vo Model/Render.glob Model/Render.v.beautified Model/Render.required_vo: Model/Render.v Gen/Status.vo
+Model/Render.vio: Model/Render.v Gen/Status.vio
+Model/Render.vos Model/Render.vok Model/Render.required_vos: Model/Render.v Gen/Status.vos
 Model/Sys.vo Model/Sys.glob Model/Sys.v.beautified Model/Sys.required_vo: Model/Sys.v Model/Coro.vo
 Model/Sys.vio: Model/Sys.v Model/Coro.vio
 Model/Sys.vos Model/Sys.vok Model/Sys.required_vos: Model/Sys.v Model/Coro.vos
@@ -223,9 +226,9 @@ Props/C02.vos Props/C02.vok Props/C02.required_vos: Props/C02.v Model/Mon.vos Mo
 Props/C13.vo Props/C13.glob Props/C13.v.beautified Props/C13.required_vo: Props/C13.v Model/Mon.vo Model/MonC13.vo Model/Valid.vo Model/Route.vo Proofs/Discipline.vo Proofs/SysInv.vo Proofs/PC13.vo
 Props/C13.vio: Props/C13.v Model/Mon.vio Model/MonC13.vio Model/Valid.vio Model/Route.vio Proofs/Discipline.vio Proofs/SysInv.vio Proofs/PC13.vio
 Props/C13.vos Props/C13.vok Props/C13.required_vos: Props/C13.v Model/Mon.vos Model/MonC13.vos Model/Valid.vos Model/Route.vos Proofs/Discipline.vos Proofs/SysInv.vos Proofs/PC13.vos
-Props/C15.vo Props/C15.glob Props/C15.v.beautified Props/C15.required_vo: Props/C15.v Gen/Status.vo Spec/Front15.vo Model/Coro.vo Model/Equiv.vo Proofs/PC15.vo
-Props/C15.vio: Props/C15.v Gen/Status.vio Spec/Front15.vio Model/Coro.vio Model/Equiv.vio Proofs/PC15.vio
-Props/C15.vos Props/C15.vok Props/C15.required_vos: Props/C15.v Gen/Status.vos Spec/Front15.vos Model/Coro.vos Model/Equiv.vos Proofs/PC15.vos
+Props/C15.vo Props/C15.glob Props/C15.v.beautified Props/C15.required_vo: Props/C15.v Gen/Status.vo Spec/Front15.vo Model/Coro.vo Model/Equiv.vo Model/Render.vo Proofs/PC15.vo
+Props/C15.vio: Props/C15.v Gen/Status.vio Spec/Front15.vio Model/Coro.vio Model/Equiv.vio Model/Render.vio Proofs/PC15.vio
+Props/C15.vos Props/C15.vok Props/C15.required_vos: Props/C15.v Gen/Status.vos Spec/Front15.vos Model/Coro.vos Model/Equiv.vos Model/Render.vos Proofs/PC15.vos
 Props/C17.vo Props/C17.glob Props/C17.v.beautified Props/C17.required_vo: Props/C17.v Gen/Sql.vo Gen/Flow.vo Spec/SqlRef.vo Spec/FlowRef.vo Spec/Dialect.vo
 Props/C17.vio: Props/C17.v Gen/Sql.vio Gen/Flow.vio Spec/SqlRef.vio Spec/FlowRef.vio Spec/Dialect.vio
 Props/C17.vos Props/C17.vok Props/C17.required_vos: Props/C17.v Gen/Sql.vos Gen/Flow.vos Spec/SqlRef.vos Spec/FlowRef.vos Spec/Dialect.vos
